@@ -57,7 +57,23 @@ class C06(Prop):
                   "the model is compared with the real functions on every run")
     level_note = ("Lean kernel + standard axioms; hand-written model; satisfaction approval over exact rationals "
                   "(the repaired code uses fractions.Fraction); correspondence is differential testing")
-    theorems = []
+    theorems = [
+        "PrefVerif.C06.plurality_correct",
+        "PrefVerif.C06.veto_correct",
+        "PrefVerif.C06.kApproval_correct",
+        "PrefVerif.C06.borda_correct",
+        "PrefVerif.C06.copeland_correct",
+        "PrefVerif.C06.approval_correct",
+        "PrefVerif.C06.sav_correct",
+        "PrefVerif.C06.plurality_guard",
+        "PrefVerif.C06.veto_guard",
+        "PrefVerif.C06.kApproval_guard",
+        "PrefVerif.C06.borda_guard",
+        "PrefVerif.C06.copeland_guard",
+        "PrefVerif.C06.approval_guard",
+        "PrefVerif.C06.scores_perm",
+        "PrefVerif.C06.plurality_regroup",
+    ]
     rule = ("random well-formed ordinal instances of the four types and approval profiles, multiplicities up to 50, "
             "planted Copeland wins-vs-margins separations and exact SAV ties with class sizes 3/7/10, every k in "
             "1..m+2, every rule x data type for the guards; non-trivial = in-domain call with >= 2 distinct orders")
